@@ -425,8 +425,8 @@ pub fn run_store(case: &Value) -> Value {
         let tag = op[0].as_str().unwrap();
         let before = state.clone();
         let r = match tag {
-            "unify" => state.unify(&b.term(&op[1]), &b.term(&op[2])),
-            "disunify" => state.disunify(&b.term(&op[1]), &b.term(&op[2])),
+            "unify" | "eq" => state.unify(&b.term(&op[1]), &b.term(&op[2])),
+            "disunify" | "neq" => state.disunify(&b.term(&op[1]), &b.term(&op[2])),
             "dom" => {
                 let x = state.smap_ref().walk(&b.term(&op[1])).clone();
                 state.process_domain(&x, Rc::new(domain(&op[2])))
